@@ -2,6 +2,7 @@
 From Coq Require Import List NArith ZArith Bool Permutation.
 Import ListNotations.
 From Verif Require Import Base.Val C01.Model_C01 C01.Proofs_C01 C16.Model_C16 C16.Spec_C16 C16.Proofs_C16.
+From Verif Require C16.ChoicePoint_C16 C16.ChoicePointProofs_C16.
 
 (* upgrade strategy: the first candidate handed to the resolver is an offered package that no
    offered package exceeds in version order, and an installed instance of an equal version is
@@ -52,3 +53,29 @@ Print Assumptions highest_iter_sort_is_stable.
 Theorem highest_order_is_preorder : preorder_on lt_highest cdom.
 Proof. exact PO_highest. Qed.
 Print Assumptions highest_order_is_preorder.
+
+(* ---- choice_point as a long-lived object (ChoicePoint_C16.v): over ANY sequence of reduce_atoms /
+   force_next_pkg / current_pkg / bool calls, the current candidate of the model is the one the
+   declarative run names: the first not yet discarded candidate every requirement group of which
+   keeps an alternative under the filters accumulated so far *)
+Theorem choice_point_refines_spec : forall ps ops,
+  ChoicePointProofs_C16.run_ids (ChoicePoint_C16.init ps) ops
+  = ChoicePoint_C16.srun (ChoicePoint_C16.mksst ps false true []) ops.
+Proof. exact ChoicePointProofs_C16.choice_point_refines_spec_proof. Qed.
+Print Assumptions choice_point_refines_spec.
+
+(* the step the resolver relies on: reduce_atoms keeps or advances to the first viable candidate and
+   leaves it with exactly its original groups minus the filtered atoms *)
+Theorem reduce_selects_first_viable : forall r c o f a,
+  ChoicePointProofs_C16.shadow f c o ->
+  match ChoicePoint_C16.drop_unviable (f ++ a) (o :: r) with
+  | [] => ChoicePoint_C16.cur (fst (ChoicePoint_C16.reduce (ChoicePoint_C16.mkst r (Some c) true f) a)) = None
+          /\ ChoicePoint_C16.alive (fst (ChoicePoint_C16.reduce (ChoicePoint_C16.mkst r (Some c) true f) a)) = false
+  | o' :: r' => exists q,
+        ChoicePoint_C16.cur (fst (ChoicePoint_C16.reduce (ChoicePoint_C16.mkst r (Some c) true f) a)) = Some q
+        /\ ChoicePoint_C16.rest (fst (ChoicePoint_C16.reduce (ChoicePoint_C16.mkst r (Some c) true f) a)) = r'
+        /\ ChoicePoint_C16.pid q = ChoicePoint_C16.pid o'
+        /\ ChoicePoint_C16.pdeps q = ChoicePoint_C16.prune (f ++ a) (ChoicePoint_C16.pdeps o')
+  end.
+Proof. exact ChoicePointProofs_C16.reduce_selects_first_viable_proof. Qed.
+Print Assumptions reduce_selects_first_viable.
